@@ -9,6 +9,7 @@ import (
 	"crypto/sha256"
 	"errors"
 	"fmt"
+	"os"
 	"sort"
 	"strings"
 	"sync"
@@ -59,6 +60,7 @@ type call struct {
 	Cancelled bool
 	MayCancel bool
 	Deadline  time.Duration
+	StartAt   time.Duration // fake time of launch
 
 	mu        sync.Mutex
 	Contacted map[string]int // logURL -> times the chain was sent
@@ -70,11 +72,14 @@ type call struct {
 	StartSeq  int
 	EndSeq    int
 	// getscts mode: the groups handed in
-	Groups ctpolicy.LogPolicyData
-	Zero   map[string]bool // logs given weight 0
+	Groups  ctpolicy.LogPolicyData
+	Zero    map[string]bool               // logs given weight 0
+	Weights map[string]map[string]float32 // group -> log -> weight, as handed in
 }
 
 type refresh struct {
+	id               int
+	startAt          time.Duration
 	startSeq, endSeq int
 	ok               map[string]bool
 	done             bool
@@ -98,13 +103,31 @@ type World struct {
 	active      int
 	seq         int
 	refreshes   []*refresh
-	refreshing  bool
+	refreshing  int
 	epoch       time.Time
 	stubTimeout time.Duration
+
+	// spec C17lock (lockspec.go): simulated mutexes, concurrent side operations, a Proxy
+	lock       bool
+	rt         *kernel.LockRuntime
+	lockWeight int
+	ops        []*sideOp
+	maxOps     int
+	opsActive  int
+	proxy      *submission.Proxy
+	llm        *submission.LogListManager
+	llPath     string
+	llJSON     [2][]byte
+	llWhich    int
+	partyMu    sync.Mutex
+	byParty    map[string]*call
 }
 
 // New is the constructor for the kernel.
 func New() kernel.World { return &World{} }
+
+// NewLock is the constructor of the C17lock spec (binary built from the lockstep-rewritten tree).
+func NewLock() kernel.World { return &World{lock: true} }
 
 // Whole-month lifetimes inside each bracket of the published policy table
 // (<15: 2 SCTs, 15-27: 3, 28-39: 4, >39: 5) and on both sides of every bracket
@@ -128,6 +151,7 @@ func wantTotal(m int) int {
 func (w *World) Init(s *kernel.Sim) {
 	w.s = s
 	t := s.T
+	w.lockInit() // installs the simulated-mutex runtime (C17lock) or makes sure none is installed
 	w.ctx, w.cancel = context.WithCancel(context.Background())
 	w.epoch = time.Now()
 	w.byURL = map[string]*logSpec{}
@@ -252,6 +276,9 @@ func (w *World) Init(s *kernel.Sim) {
 	}
 	w.dist = d
 	s.Logf("policy=%s logs=%d ops=%d roots=%d calls=%d conc=%d", w.policy, nLogs, nOps, nRoots, w.maxCalls, w.conc)
+	if w.lock {
+		w.lockSetup()
+	}
 	for _, l := range w.logs {
 		s.Logf("  %s op=%d google=%v state=%s interval=%v roots=%v rootsFail=%v behaviour=%s", l.URL, l.Operator, l.Google, l.State, l.Interval != nil, sortedRoots(l.Roots), l.RootsFail, l.Behaviour)
 	}
@@ -313,7 +340,7 @@ func (c *logClient) AddPreChain(ctx context.Context, chain []ct.ASN1Cert) (*ct.S
 	return c.add(ctx, chain, true)
 }
 func (c *logClient) GetAcceptedRoots(ctx context.Context) ([]ct.ASN1Cert, error) {
-	d, err := c.w.s.Seam(ctx, "refresh", "log.roots", c.l.URL, nil)
+	d, err := c.w.s.Seam(ctx, c.w.here("refresh"), "log.roots", c.l.URL, nil)
 	if err != nil {
 		return nil, err
 	}
@@ -356,11 +383,20 @@ func (w *World) newCall() *call {
 	if t.Chance(1, 3) {
 		c.Kind = "getscts"
 	}
+	if w.proxy != nil && t.Chance(1, 3) {
+		c.Kind = "proxy"
+	}
 	if t.Chance(1, 6) {
 		c.Deadline = []time.Duration{500 * time.Millisecond, 3 * time.Second, 30 * time.Second}[t.Intn(3)]
 	}
 	c.MayCancel = t.Chance(1, 5)
 	w.calls = append(w.calls, c)
+	w.partyMu.Lock()
+	if w.byParty == nil {
+		w.byParty = map[string]*call{}
+	}
+	w.byParty[c.Party] = c
+	w.partyMu.Unlock()
 	return c
 }
 
@@ -381,6 +417,7 @@ func (w *World) launch(c *call) {
 	w.active++
 	w.seq++
 	c.StartSeq = w.seq
+	c.StartAt = w.s.Now()
 	base := context.WithValue(w.ctx, callKey, c)
 	if c.Deadline > 0 {
 		c.ctx, c.cancel = context.WithTimeout(base, c.Deadline)
@@ -441,7 +478,17 @@ func (w *World) launch(c *call) {
 			}
 		}
 	}
+	if c.Groups != nil {
+		c.Weights = map[string]map[string]float32{}
+		for name, g := range c.Groups {
+			c.Weights[name] = map[string]float32{}
+			for u, wt := range g.LogWeights {
+				c.Weights[name][u] = wt
+			}
+		}
+	}
 	w.s.Go(func() {
+		w.name(c.Party)
 		defer func() {
 			if r := recover(); r != nil {
 				c.mu.Lock()
@@ -456,6 +503,10 @@ func (w *World) launch(c *call) {
 		case c.Kind == "getscts":
 			chain := []ct.ASN1Cert{{Data: c.RawChain[0]}, {Data: c.RawChain[1]}}
 			scts, err = submission.GetSCTs(c.ctx, w, chain, c.Pre, c.Groups)
+		case c.Kind == "proxy" && c.Pre:
+			scts, err = w.proxy.AddPreChain(c.ctx, c.RawChain, false)
+		case c.Kind == "proxy":
+			scts, err = w.proxy.AddChain(c.ctx, c.RawChain, false)
 		case c.Pre:
 			scts, err = w.dist.AddPreChain(c.ctx, c.RawChain, false)
 		default:
@@ -498,8 +549,21 @@ func (w *World) compatibleList(c *call) *loglist3.LogList {
 func (w *World) Options(s *kernel.Sim) []kernel.Option {
 	var opts []kernel.Option
 	parked := s.ParkedCalls()
+	held, heldLimit := w.heldCalls(parked)
+	if os.Getenv("VERIF_DEBUG_OPTS") != "" {
+		for _, p := range parked {
+			s.Logf("    parked %s", p.Key)
+		}
+		if w.rt != nil {
+			s.Logf("    waiting %v", w.rt.Waiting())
+		}
+	}
 	for _, p := range parked {
 		switch p.Name {
+		case kernel.SeamLock, kernel.SeamRLock, kernel.SeamHeld:
+			// a goroutine of the code under test in front of a (simulated) mutex, or descheduled right after acquiring it:
+			// letting it go on is always honest
+			opts = append(opts, s.ReleaseOpt(p, kernel.Decision{Kind: "ok"}, w.lockWeight))
 		case "log.add":
 			l := w.byURL[p.Digest]
 			kind := map[string]string{"good": "ok", "bad": "log.err", "hang": "log.hang"}[l.Behaviour]
@@ -516,11 +580,14 @@ func (w *World) Options(s *kernel.Sim) []kernel.Option {
 				w.launch(c)
 			}})
 		}
-		if !w.refreshing && len(w.calls) < w.maxCalls && len(w.refreshes) < 3 {
+		if w.refreshing < w.maxRefreshing() && len(w.calls) < w.maxCalls && len(w.refreshes) < 3 && !w.refreshStartedNow() {
 			opts = append(opts, kernel.Option{Key: "refresh roots", Weight: 3, Apply: w.startRefresh})
 		}
+		if w.lock {
+			opts = append(opts, w.sideOptions()...)
+		}
 		for _, c := range w.calls {
-			if c.MayCancel && !c.Done && !c.Cancelled && c.ctx != nil {
+			if c.MayCancel && !c.Done && !c.Cancelled && c.ctx != nil && !held[c.Party] {
 				c := c
 				opts = append(opts, kernel.Option{Key: "cancel " + c.Party, Weight: 1, Apply: func() {
 					c.Cancelled = true
@@ -530,7 +597,7 @@ func (w *World) Options(s *kernel.Sim) []kernel.Option {
 			}
 		}
 	}
-	if w.active > 0 || w.refreshing {
+	if w.active > 0 || w.refreshing > 0 || w.opsActive > 0 {
 		ladder := []time.Duration{time.Millisecond, 300 * time.Millisecond, time.Second, 2500 * time.Millisecond, 20 * time.Second, 5 * time.Minute}
 		weights := []int{1, 2, 3, 2, 1, 1}
 		if len(parked) == 0 {
@@ -540,18 +607,34 @@ func (w *World) Options(s *kernel.Sim) []kernel.Option {
 			if !s.FaultsOn() && len(parked) > 0 && i > 3 {
 				continue
 			}
+			if d >= heldLimit {
+				continue
+			}
 			opts = append(opts, s.AdvanceOpt(d, weights[i]))
 		}
 	}
 	return opts
 }
 
+// refreshStartedNow: a running refresh began at this very fake instant. A second one would time out at the same
+// instant (RefreshRoots gives the logs 10 s), and which of the two then writes its roots last is up to the Go
+// scheduler, not to the driver.
+func (w *World) refreshStartedNow() bool {
+	for _, r := range w.refreshes {
+		if !r.done && r.startAt == w.s.Now() {
+			return true
+		}
+	}
+	return false
+}
+
 func (w *World) startRefresh() {
-	w.refreshing = true
+	w.refreshing++
 	w.seq++
-	r := &refresh{startSeq: w.seq, ok: map[string]bool{}}
+	r := &refresh{id: len(w.refreshes), startAt: w.s.Now(), startSeq: w.seq, ok: map[string]bool{}}
 	w.refreshes = append(w.refreshes, r)
 	w.s.Go(func() {
+		w.name(fmt.Sprintf("refresh%d", r.id))
 		errs := w.dist.RefreshRoots(w.ctx)
 		for _, l := range w.logs {
 			if _, bad := errs[l.URL]; !bad {
@@ -575,18 +658,37 @@ func (w *World) knownThroughout(u string, c *call) bool {
 			}
 			continue
 		}
-		last = r
+		if last == nil || r.endSeq > last.endSeq {
+			last = r
+		}
 	}
-	return last != nil && last.ok[u]
+	if last == nil {
+		return false
+	}
+	for _, r := range w.refreshes {
+		// refreshes that ran concurrently (C17lock): which one wrote last is the distributor's business;
+		// knowledge counts only where they agree
+		if r != last && r.done && r.endSeq != 0 && r.startSeq < last.endSeq && r.endSeq > last.startSeq && r.ok[u] != last.ok[u] {
+			return false
+		}
+	}
+	return last.ok[u]
 }
 
 // AfterStep harvests finished refreshes and calls.
 func (w *World) AfterStep(s *kernel.Sim) {
+	if w.rt != nil {
+		if key, detail, ok := w.rt.Deadlock(); ok {
+			s.Violate("lock-deadlock", key, "goroutines wait for each other's locks forever: %s", detail)
+			return
+		}
+		w.harvestOps()
+	}
 	for _, r := range w.refreshes {
 		if r.done && r.endSeq == 0 {
 			w.seq++
 			r.endSeq = w.seq
-			w.refreshing = false
+			w.refreshing--
 			s.Logf("refresh done ok=%d", len(r.ok))
 			s.Probe("refresh.done")
 		}
@@ -599,9 +701,7 @@ func (w *World) AfterStep(s *kernel.Sim) {
 			continue
 		}
 		c.Checked = true
-		if c.Kind != "getscts-unsatisfiable" {
-			w.active--
-		}
+		w.active-- // (launch counted it, also when the policy turned out to be unsatisfiable)
 		w.seq++
 		c.EndSeq = w.seq
 		w.judge(c)
@@ -706,6 +806,11 @@ func (w *World) judge(c *call) {
 		s.Probe("call.error.cancelled-or-deadline")
 		return
 	}
+	if c.Kind == "proxy" {
+		// which log list and which roots the proxy's current distributor knows is not tracked
+		s.Probe("call.error.proxy")
+		return
+	}
 	if c.Kind == "dist" && !w.distKnowledgeStable(c) {
 		s.Probe("call.error.knowledge-changing")
 		return
@@ -764,6 +869,18 @@ func (w *World) Finish(s *kernel.Sim) {
 			return
 		}
 	}
+	for _, r := range w.refreshes {
+		if w.lock && !r.done {
+			s.Violate("no-termination", "refresh-roots", "RefreshRoots #%d did not return within the settle bound (fake time %v)", r.id, s.Now())
+			return
+		}
+	}
+	for _, o := range w.ops {
+		if !o.checked {
+			s.Violate("no-termination", o.kind, "%s (%s) did not return within the settle bound (fake time %v)", o.party, o.kind, s.Now())
+			return
+		}
+	}
 }
 
 // Shutdown implements kernel.World.
@@ -773,6 +890,9 @@ func (w *World) Shutdown(s *kernel.Sim) {
 		if c.cancel != nil {
 			c.cancel()
 		}
+	}
+	if w.rt != nil {
+		w.rt.Shutdown()
 	}
 }
 
@@ -787,7 +907,11 @@ func (w *World) StateKey() string {
 			}
 		}
 	}
-	return fmt.Sprintf("%s calls=%d done=%d ok=%d active=%d parked=%d", w.policy, len(w.calls), done, ok, w.active, len(w.s.ParkedCalls()))
+	k := fmt.Sprintf("%s calls=%d done=%d ok=%d active=%d parked=%d", w.policy, len(w.calls), done, ok, w.active, len(w.s.ParkedCalls()))
+	if w.rt != nil {
+		k += fmt.Sprintf(" blocked=%d ops=%d", w.rt.Blocked(), len(w.ops))
+	}
+	return k
 }
 
 // canonErr renders an error without run-dependent order: completenessError
